@@ -287,7 +287,7 @@ def expr_ir(e):
     raise Outside("expr " + k)
 
 
-def ast_to_ir(root, dialect):
+def ast_to_ir(root, dialect, star_quotes=False):
     """Flatten a query AST: scopes in post-order (CTE bodies, then FROM/JOIN subqueries, then the select)."""
     _, exp, Dialect, *_ = sg()
     d = Dialect.get_or_raise(dialect)
@@ -404,6 +404,9 @@ def ast_to_ir(root, dialect):
             flags = {bool(i.args.get("quoted")) for i in sel.find_all(exp.Identifier)}
             if len(flags) > 1:
                 raise Outside("mixed-quoting-under-group-order")
+            if star_quotes and False in flags and any(p.is_star for p in sel.expressions):
+                # _expand_stars quotes the columns whose names the dialect deems case-sensitive: same blind spot
+                raise Outside("star-quotes-case-sensitive-names-under-group-order")
         order = []
         if od is not None:
             for o in od.expressions:
@@ -1002,7 +1005,9 @@ def oracle(sql, nested_schema, dialect):
         return None  # qualify restructured the query (join constructs): not comparable select by select
     for s0, s1n in zip(sels0, sels1):
         srcs1 = own_sources(s1n)
-        star_left = any(p.is_star for p in s1n.expressions)
+        # a star over a struct COLUMN (`alias.col.*`, a Dot) is not a table star: it needs type information to expand
+        star_left = any(isinstance(p, exp.Star) or (isinstance(p, exp.Column) and isinstance(p.this, exp.Star))
+                        for p in s1n.expressions)
         # columns each source exposes, from the qualified tree / the schema
         src_cols = []
         known = True
@@ -1015,7 +1020,20 @@ def oracle(sql, nested_schema, dialect):
                     anc = anc.parent
                     w = anc.args.get("with_") if anc is not None else None
                     if w is not None and not it.args.get("db"):
-                        for cdef in w.expressions:
+                        cands = list(w.expressions)
+                        # inside one of this WITH's own definitions only the EARLIER ones are visible (not recursive)
+                        for ci, cdef in enumerate(cands):
+                            node = it
+                            inside = False
+                            while node is not None and node is not w:
+                                if node is cdef:
+                                    inside = True
+                                    break
+                                node = node.parent
+                            if inside:
+                                cands = cands[:ci]
+                                break
+                        for cdef in cands:
                             if cdef.alias == it.name:
                                 cte = cdef
                 if cte is not None:
@@ -1212,7 +1230,10 @@ def oracle(sql, nested_schema, dialect):
 # ------------------------------------------------------------------------------------------ correspondence
 def model_dialect_list():
     rows = dialect_rows()
-    out = [r["name"] or None for r in rows if r["base_normalize"] and not r["flags"] and not r["pseudocolumns"]]
+    # exasol: its generator rewrites what it prints (`LOCAL.` prefixes, table-qualified stars), so the text handed to
+    # the second application is not the first result; it stays in the search stream
+    out = [r["name"] or None for r in rows if r["base_normalize"] and not r["flags"] and not r["pseudocolumns"]
+           and r["name"] != "exasol"]
     out.append("trino, normalization_strategy=case_insensitive_uppercase")
     out.append("duckdb, normalization_strategy=uppercase")
     return out
@@ -1403,8 +1424,11 @@ def correspond_queries(chk: Check):
         if r["status"] == "other":
             hints.append((sql, schema, dialect))
             continue
+        ms0 = MappingSchema(schema, dialect=dialect)
+        dd0 = Dialect.get_or_raise(dialect)
+        star_quotes = any(dd0.case_sensitive(c) for _, cols in flat_schema(ms0) for c in cols)
         try:
-            ir_in = ast_to_ir(r["tree"], dialect)
+            ir_in = ast_to_ir(r["tree"], dialect, star_quotes)
         except Outside as e:
             outside += 1
             chk.count("corr:outside:" + str(e).split(" ")[0])
